@@ -10,7 +10,7 @@ from sa.terms import T, const, sym, call, mk
 from sa.values import (Val, Arr, Frame, Rot, Seq, DictV, Obj, Func, ClassRef, Ref, Unk, Space, K, pyval, is_pyconst,
                        to_term, NotConst, Unsupported)
 from sa.interp import Interp
-from sa.harness import motl_frame, motl_obj, P, assume_map, half_integer_sampler, pos_sampler, int_sampler
+from sa.harness import motl_frame, motl_obj, P, typed, assume_map, half_integer_sampler, pos_sampler, int_sampler
 from sa.report import Obligation
 from sa.srcmodel import AnchorMissing, norm_text
 
